@@ -7,25 +7,21 @@ SPEC = dict(
     id="C01",
     level_text="Bounded model checking of the encoding kernels behind 'relocated values are correct': PLT stubs (x86-64, AArch64) are "
                "decoded with reference instruction semantics and must transfer control through exactly their GOT slot for all "
-               "addresses; byte-sized relocation fields hold exactly the little-endian value and nothing else changes; the GOT slot "
-               "a TLSDESC/TLSGD relocation addresses is the slot the writer put the dynamic relocation on.",
+               "addresses; byte-sized relocation fields hold exactly the little-endian value and nothing else changes.",
     level_note="Kernel scope: which formula apply_relocation picks per RelocationKind and what address a symbol resolves to need the "
                "whole Layout and are outside; this check sees a wrong encoding of a right value, not a wrong value.",
     overlays=[(X, "harness/libwild/elf_x86_64.rs"), (A, "harness/libwild/elf_aarch64.rs"), (U, "harness/linker-utils/x86_64.rs"),
-              (UA, "harness/linker-utils/aarch64.rs"), (W, "harness/libwild/elf_writer_c23.rs")],
+              (UA, "harness/linker-utils/aarch64.rs")],
     jobs=5,
     harnesses=[
         dict(fn="c01_x86_64_plt_jumps_through_its_got_slot", file=X, timeout=900, witness=True),
         dict(fn="c01_aarch64_plt_loads_its_got_slot", file=A, timeout=900),
         dict(fn="c12_x86_64_ranges", file=U, timeout=900),
         dict(fn="c13_aarch64_encoding_data", file=UA, timeout=900),
-        dict(fn="c01_tls_got_slots_shared", file=W, timeout=2400, tiers=["thorough"]),
-        dict(fn="c01_tls_got_slots_dyn_pie", file=W, timeout=2400, tiers=["thorough"]),
     ],
     functions_encoded=["elf_x86_64::ElfX86_64::write_plt_entry", "elf_aarch64::ElfAArch64::write_plt_entry",
-                       "linker_utils::elf::RelocationKindInfo::write_to_buffer (ByteSize rows, x86-64 and AArch64)",
-                       "elf::Resolution::{tls_descriptor_got_address,tlsgd_got_address} vs TableWriter::process_resolution (thorough)"],
-    bounds="all PLT/GOT address pairs; all 2^64 values per byte-sized relocation row; TLS GOT-slot agreement over all admissible TLS flag sets x 5 output kinds (thorough tier only: ~10 GB, >10 min)",
-    outside_bounds="relocation formula selection (apply_relocation), symbol addresses, copy relocations, ifunc, merged strings, dynamic loader behaviour",
+                       "linker_utils::elf::RelocationKindInfo::write_to_buffer (ByteSize rows, x86-64 and AArch64)"],
+    bounds="all PLT/GOT address pairs; all 2^64 values per byte-sized relocation row",
+    outside_bounds="TLS GOT-slot agreement (tls_descriptor_got_address vs the writer: harness c01_tls_got_slots_* exists but needs > 19 GB and > 35 min per output kind, not run); relocation formula selection (apply_relocation), symbol addresses, copy relocations, ifunc, merged strings, dynamic loader behaviour",
     stubs=["std::fmt::format", "std::backtrace::Backtrace::capture"],
 )
